@@ -132,6 +132,20 @@ def toAlterOpt : Sexp → Option AlterOpt
   | .list [.atom "dropfk", n] => (str n).map .dropFk
   | _ => none
 
+def optParts : Sexp → Option (Option (List String))
+  | .atom "-" => some none
+  | .list ps => (mapM' str ps).map some
+  | _ => none
+
+def toTypeAlterOpt : Sexp → Option (Option TypeAlterOpt)
+  | .atom "-" => some none
+  | .list [.atom "add", v, ine, .atom "-"] => match str v, bool ine with | some v, some ine => some (some (.add v none ine)) | _, _ => none
+  | .list [.atom "add", v, ine, .list [.atom "before", b]] => match str v, bool ine, str b with | some v, some ine, some b => some (some (.add v (some (false, b)) ine)) | _, _, _ => none
+  | .list [.atom "add", v, ine, .list [.atom "after", b]] => match str v, bool ine, str b with | some v, some ine, some b => some (some (.add v (some (true, b)) ine)) | _, _, _ => none
+  | .list [.atom "rename", n] => (str n).map (fun n => some (.rename n))
+  | .list [.atom "renamevalue", a, b] => match str a, str b with | some a, some b => some (some (.renameValue a b)) | _, _ => none
+  | _ => none
+
 def toStmt : Sexp → Option SeaQ.Ddl.Stmt
   | .list [.atom "create", t, .list cols, .list opts, .list idx, .list fks, ine, .list checks, comment, extra, temp] =>
     match optTName t, mapM' toCol cols, mapM' toTableOpt opts, mapM' toIndex idx, mapM' toFk fks, bool ine, mapM' toEx checks,
@@ -150,6 +164,17 @@ def toStmt : Sexp → Option SeaQ.Ddl.Stmt
     match optStr n, optTName t, bool ie with | some n, some t, some ie => some (.indexDrop n t ie) | _, _, _ => none
   | .list [.atom "fkcreate", f] => (toFk f).map .fkCreate
   | .list [.atom "fkdrop", n, t] => match optStr n, optTName t with | some n, some t => some (.fkDrop n t) | _, _ => none
+  | .list [.atom "typecreate", n, e, .list vs] =>
+    match optParts n, bool e, mapM' str vs with | some n, some e, some vs => some (.typeCreate n e vs) | _, _, _ => none
+  | .list [.atom "typedrop", .list ns, ie, o] =>
+    match mapM' (fun x => match x with | .list ps => mapM' str ps | _ => none) ns, bool ie, optNat o with
+    | some ns, some ie, some o => some (.typeDrop ns ie o) | _, _, _ => none
+  | .list [.atom "typealter", n, o] => match optParts n, toTypeAlterOpt o with | some n, some o => some (.typeAlter n o) | _, _ => none
+  | .list [.atom "extcreate", n, sc, v, c, ine] =>
+    match str n, optStr sc, optStr v, bool c, bool ine with
+    | some n, some sc, some v, some c, some ine => some (.extCreate n sc v c ine) | _, _, _, _, _ => none
+  | .list [.atom "extdrop", n, ie, c, r] =>
+    match str n, bool ie, bool c, bool r with | some n, some ie, some c, some r => some (.extDrop n ie c r) | _, _, _, _ => none
   | _ => none
 
 /-- `ddl <backend> <recipe>` -/
